@@ -218,6 +218,7 @@ def opt_case(draw, tier, cvx=False):
     if c["stop_mode"] in ("sum_absolute_difference_variable", "sum_absolute_difference_projected_gradient"):
         c["algo_eps"] = draw(st.sampled_from([1e-5, 1e-6]))
     c["constraints"] = [True, True]
+    c["prior_use"] = draw(st.sampled_from(c10.PRIOR_USES))
     c["max_iter"] = 500 if tier == "quick" else 3000
     t = tomo.true_type(kind)
     comps = []
